@@ -190,6 +190,16 @@ class Batch:
                                        else p.returncode, "\n".join(tail), err[-6000:] if err else "")
             if p.returncode is not None and p.returncode < 0 and cls.startswith("crash_rc"):
                 cls, what = ("hang", "killed after time limit") if p.returncode == -9 else (cls, what)
+            if cls == "hang" and time.time() >= self.deadline:
+                # the worker was stopped because the batch was over, in the middle of a run: that run gets a process
+                # and a time limit of its own; only if it does not end there either it is a hang
+                try:
+                    lines = gen_plan(self.binp, self.profile, last_begin[1])
+                    r = exec_plan(self.binp, lines, timeout=180)
+                except RuntimeError:
+                    r = dict(kind="harness")
+                if not (r.get("kind") == "crash" and r.get("cls") == "hang"):
+                    return
             v = Violation(index=last_begin[0], seed=last_begin[1], props=["CRASH"], cls=cls, facts=what,
                           kind="crash", build=self.cfg, engine=self.engine, profile=self.profile,
                           stderr=(err or "")[-3000:], san=self.san, sut=last_sut)
@@ -221,7 +231,7 @@ def gen_plan(binp, profile, seed):
     return [l for l in r.stdout.splitlines() if l.strip()]
 
 
-def exec_plan(binp, lines, timeout=30):
+def exec_plan(binp, lines, timeout=180):
     """returns dict(kind=ok|oracle|crash|skip|harness, cls, props, facts, hash)"""
     os.makedirs(TMP, exist_ok=True)
     fd, path = tempfile.mkstemp(prefix="plan", suffix=".txt", dir=TMP)
